@@ -11,7 +11,9 @@ Oracle: the label text is read back (CC/Spec/Fmt.lean) and compared with the cir
 computed independently through `Circuit.solution` (DCSolution / ComplexSolution; peak phasors
 for the time function), with the sign rule `reverse ⇒ negated` of CC/Spec/Annot.lean; the
 declared solution type must select the adapter kind of `specKind`; real, Cartesian, polar
-(rad/deg) and sinusoidal annotations of one quantity must agree with one another.
+(rad/deg) and sinusoidal annotations of one quantity must agree with one another; the power
+annotation of an element must be V·conj(I) (RMS) / ½·V·conj(I) (peak) / V·I (DC) of its own
+voltage and current annotations, with Q ≥ 0 for inductors and Q ≤ 0 for capacitors.
 """
 from __future__ import annotations
 import math, cmath, io, contextlib
@@ -401,6 +403,120 @@ def check_agreement(ctx, out, desc):
         if not fails and not sym:
             out.nontrivial(('agree', desc['shape'], desc['ac'], key[0]))
 
+# --------------------------------------------------------------------------- power = V·conj(I), from the labels alone
+
+def _parse_time_label(drv, s, unit, w):
+    """'A<unit>·cos(<freq>·t[±phase])' → phasor A·exp(jφ) (cos reference, radians); None if unreadable"""
+    num = lambda t, u: (lambda r: None if (r is None or r.get('inf')) else float(Fraction(r['value'])))(drv.call('fmt_parse', unit=u, s=t)['parsed'])
+    if w == 0:
+        a = num(s, unit)
+        return None if a is None else complex(a, 0.0)
+    head, sep, tail = s.partition('·cos(')
+    if not sep or not tail.endswith(')'): return None
+    a = num(head, unit)
+    _, sep, ph = tail[:-1].partition('·t')
+    if a is None or not sep: return None
+    if ph == '': return complex(a, 0.0)
+    v = num(ph[1:], '')
+    if v is None or ph[0] not in '+-': return None
+    return a * cmath.exp(1j * (v if ph[0] == '+' else -v))
+
+def _parse_polar_label(drv, s, unit):
+    r = drv.call('fmt_spec_polar', abs='1', precision=1, max_exp=3, unit=unit, s=s)
+    if 'unreadable' in r['failures'] or r['abs'] is None or r['abs'].get('inf'): return None
+    a = 0.0 if r['angle'] is None else float(Fraction(r['angle']))
+    return float(Fraction(r['abs']['value'])) * cmath.exp(1j * a)
+
+def check_power_agreement(ctx, out, desc):
+    """the power annotation of an element against V·conj(I) (RMS phasors), ½·V·conj(I) (peak phasors of the time
+    functions), V·I (DC) computed from the *voltage and current annotations* of the same element; random reverse
+    flags, undone with the sign rule; sign of the reactive power of inductors (Q ≥ 0) and capacitors (Q ≤ 0)"""
+    import CircuitCalculator.SimpleCircuit.DiagramSolution as ds
+    drv = ctx.driver
+    if drv is None: return
+    rng = ctx.rng('power', repr(desc))
+    try:
+        sch = build(desc)
+    except Exception as e:
+        out.skip(f'schematic_not_built:{type(e).__name__}'); return
+    w = desc['w']; p = 4
+    kinds = [('complex', 'single_frequency_complex_solution', dict(w=w, precision=p, polar=True), p)]
+    if desc['ac'] and w > 0:
+        # (at w = 0 the time label is the bare magnitude |q|: it carries no sign to compare)
+        kinds.append(('time', 'single_frequency_time_domain_steady_state_solution', dict(w=w), 3))
+    if not desc['ac']:
+        kinds.append(('real', 'real_solution', dict(precision=p), p))
+    for kind, ctor, kw, prec in kinds:
+        try:
+            sol = getattr(ds, ctor)(sch, **kw)
+        except Exception as e:
+            out.skip(f'solution_failed:{type(e).__name__}'); continue
+        for e in desc['elements']:
+            name = e['name']
+            rv, ri, rp = (rng.random() < 0.5 for _ in range(3))
+            out.evaluations += 1
+            out.count(f'power_agreement:{kind}')
+            case = dict(desc=desc, power_agreement=dict(kind=kind, name=name))
+            try:
+                tv = label_text(sol.draw_voltage(name, reverse=rv)); ti = label_text(sol.draw_current(name, reverse=ri))
+                tp = label_text(sol.draw_power(name, reverse=rp))
+            except Exception as ex:
+                out.skip(f'draw_failed:{type(ex).__name__}'); continue
+            if kind == 'complex':
+                V, I, S = _parse_polar_label(drv, tv, 'V'), _parse_polar_label(drv, ti, 'A'), _parse_polar_label(drv, tp, 'W')
+                factor = 1.0
+            elif kind == 'time':
+                V, I, S = _parse_time_label(drv, tv, 'V', w), _parse_time_label(drv, ti, 'A', w), _parse_time_label(drv, tp, 'W', w)
+                factor = 0.5
+            else:
+                num = lambda t, u: (lambda r: None if (r is None or r.get('inf')) else float(Fraction(r['value'])))(drv.call('fmt_parse', unit=u, s=t)['parsed'])
+                V, I = num(tv, 'V'), num(ti, 'A')
+                a = num(tp[:-1], 'W')
+                S = None if (a is None or tp[-1:] not in ('↓', '↑')) else (a if tp[-1] == '↓' else -a)
+                factor = 1.0
+            if V is None or I is None or S is None:
+                out.skip('power_agreement_unreadable'); continue
+            # undo the requested reversals (sign rule of Spec.Annot)
+            V = -V if rv else V; I = -I if ri else I; S = -S if rp else S
+            want = factor * V * (I.conjugate() if isinstance(I, complex) else I)
+            if abs(want) < 1e-12 or abs(V) < 1e-9 or abs(I) < 1e-12:
+                out.skip('power_agreement_zero'); continue
+            # three labels, each within half a unit of its `prec`-th digit (relative ≤ ½·10^(1-prec)); printed angles
+            # carry ≤ ½ unit of their last digit each
+            rel = 3 * 0.5 * 10.0 ** (1 - prec) * 1.2
+            ang_tol = (3 * 0.5e-4 + 1e-5 * 3 + 1e-6) if kind == 'complex' else 3 * 0.5 * 10.0 ** (1 - prec) * math.pi
+            fails = []
+            if abs(abs(S) - abs(want)) > rel * abs(want):
+                fails.append('power_not_v_conj_i')
+            elif kind != 'real':
+                d = abs(cmath.phase(S) - cmath.phase(want)) % (2 * math.pi); d = min(d, 2 * math.pi - d)
+                if d > ang_tol: fails.append('power_not_v_conj_i')
+            elif (S > 0) != (want > 0):
+                fails.append('power_not_v_conj_i')
+            if kind != 'real' and w > 0 and e['kind'] in ('L', 'C') and not fails:
+                q = S.imag if kind == 'complex' else S.imag
+                if abs(q) > ang_tol * abs(S) and (q > 0) != (e['kind'] == 'L'):
+                    fails.append('reactive_power_sign')
+            if fails:
+                out.spec_fail(dict(op='agree', symptom=fails[0], kind=kind, element=e['kind']),
+                              f'{kind} power annotation of {name!r} {tp!r} (reverse={rp}) is not '
+                              f'{"½·" if factor == 0.5 else ""}V·conj(I) of its voltage {tv!r} (reverse={rv}) and current {ti!r} '
+                              f'(reverse={ri}): read {S!r}, expected {want!r}', case, impl=dict(v=tv, i=ti, p=tp),
+                              spec=dict(read=str(S), expected=str(want)), case=case)
+            else:
+                out.nontrivial(('power_agree', kind, e['kind'], rv, ri, rp))
+
+POWER_CORPUS = [
+    # RL, RC and RLC loops at w > 0: inductors absorb, capacitors deliver reactive power
+    dict(shape='loop', unit=5, w=100.0, ac=True, elements=[dict(kind='VAC', name='Vq', value=10.0, w=100.0, phi=0.0, reverse=False),
+         dict(kind='R', name='R1', value=10.0, reverse=False), dict(kind='L', name='L1', value=0.1, reverse=False)]),
+    dict(shape='loop', unit=5, w=100.0, ac=True, elements=[dict(kind='VAC', name='Vq', value=10.0, w=100.0, phi=0.5, reverse=False),
+         dict(kind='R', name='R1', value=100.0, reverse=True), dict(kind='C', name='C1', value=1e-4, reverse=False)]),
+    dict(shape='loop', unit=5, w=1000.0, ac=True, elements=[dict(kind='VC', name='Vq', value=[3.0, 4.0], reverse=False),
+         dict(kind='R', name='R1', value=47.0, reverse=False), dict(kind='L', name='L1', value=0.022, reverse=True),
+         dict(kind='C', name='C1', value=4.7e-5, reverse=False)]),
+]
+
 # --------------------------------------------------------------------------- declarative path
 
 DECL_ELEMENT = {'R': ('resistor', 'R'), 'C': ('capacitor', 'C'), 'L': ('inductance', 'L'), 'V': ('voltage_source', 'V'),
@@ -554,6 +670,11 @@ def run(ctx, out):
     for k in range(14 if quick else 120):
         if ctx.time_left() < 30: out.notes.append('agreement cut by budget'); break
         check_agreement(ctx, out, CORPUS[k] if k < 2 else random_desc(rng, ac=(k % 2 == 1)))
+    rng = ctx.rng('power')
+    for k in range(12 if quick else 150):
+        if ctx.time_left() < 25: out.notes.append('power agreement cut by budget'); break
+        d = POWER_CORPUS[k] if k < len(POWER_CORPUS) else (CORPUS[0] if k == len(POWER_CORPUS) else random_desc(rng, ac=(k % 3 != 0)))
+        check_power_agreement(ctx, out, d)
     rng = ctx.rng('declarative')
     decl = [('dc', {}), ('real', dict(precision=2)), ('complex', dict(precision=4, polar=True, deg=True)),
             ('single_frequency_time_domain', dict(w=100.0)), ('single_frequency_time_domain', dict(w=100.0, sin=True, hertz=True)),
@@ -577,5 +698,7 @@ def replay(ctx, out, rp):
         check_declarative(ctx, out, case['desc'], case['declarative']['type'], case['declarative']['params'])
     elif 'agreement' in case:
         check_agreement(ctx, out, case['desc'])
+    elif 'power_agreement' in case:
+        check_power_agreement(ctx, out, case['desc'])
     else:
         check_schematic(ctx, out, case['desc'], kinds=(case['kind'],))
